@@ -153,7 +153,12 @@ def strategy(tier):
                 d['v'] = draw(st.sampled_from(['[1, 2]', '[1, 2, 9]', 'None'] if basket else VALUES))
             elif k in ('expr', 'not_expr'):
                 d['expr'] = draw(st.sampled_from(['x == 0', 'x > 1', 'y == x', 'x < 3 and y >= 0',
-                                                  "active('%s')" % names[0], 'x == 5']))
+                                                  "active('%s')" % names[0], 'x == 5',
+                                                  # operators binding weaker than `not`
+                                                  'x == 1 or y == 2', 'x > 0 and y > 1',
+                                                  'x == 0 or y == 0', 'x > 1 and y == 0',
+                                                  'y if x else 1', 'x == 0 or y > 0 and z is None',
+                                                  "active('%s') or x > 2" % names[-1]]))
             return d
         scenarios = []
         for i in range(draw(st.integers(6, 14))):
